@@ -45,7 +45,7 @@ RULE = ("60% window histories: size 1-50 (mostly 1-6), interval in {1,7,100,250m
         "SheddingHandler with RecoverHandler inside / without it, over a recording shedder: 15% scripted drops; outcomes ok, "
         "status.Error(0..16), context.DeadlineExceeded, wrapped deadline, panic(string|error|DeadlineExceeded), request context already expired / cancelled on arrival (handler gives up with ctx.Err() or answers all the same); shapes "
         "WriteHeader(c), bare Write, nothing, WriteHeader+Write+Flush+Write, panic, Write-then-panic); "
-        "2 CPU-smoothing probes (lib/stat: smoothed value set to 0 / 600 / 1000, all cores kept busy for one refresh interval, value read after one refresh of the package's own loop); 4 (thorough 40) configured-geometry traces (window/buckets in {500ms/5, 1s/10, 300ms/3, 600ms/6}: fast requests, a gap longer "
+        "6 (thorough 60) small windows with gated Reduces overlapped by (advance; Add) from another goroutine (35% of the random window histories have them too), 3 (thorough 30) current-bucket latency traces, 2 HTTP shedding lists with Upgrade: websocket / h2c request headers; 2 CPU-smoothing probes (lib/stat: smoothed value set to 0 / 600 / 1000, all cores kept busy for one refresh interval, value read after one refresh of the package's own loop); 4 (thorough 40) configured-geometry traces (window/buckets in {500ms/5, 1s/10, 300ms/3, 600ms/6}: fast requests, a gap longer "
         "than the window, slower requests over a standing in-flight load, overload readings with in-flight between the stale and the "
         "configured capacity), 2 dead-context RPC integration lists; 4 (thorough 40) shedding-statistics streams over 2-6 scripted reporting ticks (SheddingStat.loop on a driver channel, the "
         "logged line captured through a logx writer); non-trivial = window: a Reduce after an Add and an advance >= interval; shedder: at least one Pass and one drop "
@@ -66,7 +66,7 @@ MS = 1000000
 SEC = 1000 * MS
 
 
-def gen_window(rng, small=False):
+def gen_window(rng, small=False, conc=None):
     r = rng.random()
     if r < 0.03:
         size, interval = rng.choice([(0, 100), (-1, 100), (3, 0), (1, 0)])
@@ -74,6 +74,9 @@ def gen_window(rng, small=False):
         size = rng.choice([1, 1, 2, 2, 3, 3, 4, 5, 6]) if (small or rng.random() < 0.7) else rng.randint(7, 50)
         interval = rng.choice([1, 7, 100, 100, 250 * MS, SEC])
     ign = rng.random() < 0.5
+    conc = (rng.random() < 0.35) if conc is None else conc      # gated Reduce overlapped by (advance; Add) from another goroutine
+    if size < 1 or interval < 1:
+        conc = False
     ops = []
     nops = rng.randint(6, 40)
     I = max(interval, 1)
@@ -84,6 +87,9 @@ def gen_window(rng, small=False):
             ops.append([0, rng.choice([0, 1, 1, 1, 2, 3, 7, 1000])])
         elif x < 0.65:
             ops.append([1])
+        elif x < 0.72 and conc:
+            k = rng.randint(1, n + 1)
+            ops.append([3, rng.choice([0, 1, I, k * I, k * I + 1, n * I, (n + 2) * I]), rng.choice([1, 2, 7])])
         else:
             k = rng.randint(1, n + 1)
             dt = rng.choice([0, 1, I - 1, I, I + 1, k * I - 1, k * I, k * I + 1, n * I - 1, n * I, n * I + 1,
@@ -150,7 +156,7 @@ def gen_integration(rng):
             arg = rng.choice(HTTP_STATUS) if k in (0, 3) else 0
         else:
             arg = rng.randrange(17) if k == 1 else 0
-        calls.append([drop, k, arg])
+        calls.append([drop, k, arg] + ([rng.choice([0, 1, 1, 2, 3])] if http else []))
     c = {"kind": "i", "http": http, "calls": calls}
     if http:
         c["guard"] = rng.random() < 0.6
@@ -205,6 +211,40 @@ def gen_geometry(rng):
     return {"kind": "s", "window": window, "buckets": buckets, "thr": 900, "ops": ops}
 
 
+def gen_current_bucket(rng):
+    """the latency window excludes the CURRENT bucket like the pass window: completed buckets with slow requests over a standing
+    in-flight load, a few very fast completions inside the current bucket, then overload readings in that same bucket"""
+    window, buckets = rng.choice([(5 * SEC, 50), (SEC, 10), (500 * MS, 5)])
+    bd = window // buckets
+    ops = []
+
+    def allow(cpu):
+        ops.append([0, cpu])
+        return len(ops) - 1
+    base = [allow(100) for _ in range(rng.randint(25, 35))]
+    lat = rng.choice([2 * bd, 3 * bd])
+    for _ in range(2):
+        ids = [allow(100) for _ in range(rng.randint(15, 25))]
+        ops.append([3, lat])
+        ops.extend([1, k] for k in ids)
+    ops.append([3, bd])                       # the slow completions now lie in completed buckets; we are at a bucket start
+    ids = [allow(100) for _ in range(rng.randint(3, 6))]
+    ops.append([3, MS])
+    ops.extend([1, k] for k in ids)           # 1 ms latencies, in the current bucket
+    for _ in range(rng.randint(4, 8)):
+        allow(rng.choice([900, 950, 1000]))   # overload readings, same bucket
+        if rng.random() < 0.3:
+            ops.append([3, MS])
+    return {"kind": "s", "window": window, "buckets": buckets, "thr": 900, "ops": ops}
+
+
+def upgrade_case(rng):
+    """HTTP shedding handler: requests carrying Upgrade: websocket / other Upgrade values, every response shape"""
+    calls = [[1 if rng.random() < 0.1 else 0, rng.randrange(7), rng.choice([200, 101, 503, 404]), rng.choice([1, 1, 2])]
+             for _ in range(rng.randint(15, 40))]
+    return {"kind": "i", "http": True, "guard": rng.random() < 0.6, "calls": calls}
+
+
 def dead_context_case(rng):
     """RPC shedding interceptor: a run of requests whose context is already expired / cancelled on arrival, then live ones"""
     calls = [[0, rng.choice([7, 8, 9]), 0] for _ in range(rng.randint(8, 30))] + [[0, 0, 0]] * 3
@@ -212,7 +252,9 @@ def dead_context_case(rng):
 
 
 def generate(rng, tier, n):
-    cases = [gen_stat(rng) for _ in range(4 if tier != "thorough" else 40)] + [dead_context_case(rng), dead_context_case(rng)] + \
+    cases = [gen_stat(rng) for _ in range(4 if tier != "thorough" else 40)] + [dead_context_case(rng), dead_context_case(rng), upgrade_case(rng), upgrade_case(rng)] + \
+        [gen_current_bucket(rng) for _ in range(3 if tier != "thorough" else 30)] + \
+        [gen_window(rng, small=True, conc=True) for _ in range(6 if tier != "thorough" else 60)] + \
         [{"kind": "u", "start": 0, "burn": 1}, {"kind": "u", "start": rng.choice([1000, 600, 0]), "burn": rng.randrange(2)}] + \
         [gen_geometry(rng) for _ in range(4 if tier != "thorough" else 40)]
     for _ in range(n - len(cases)):
@@ -269,6 +311,8 @@ def encode(case, obs):
                 ops.append("WAdd %s" % cZ(op[1]))
             elif op[0] == 1:
                 ops.append("WRed")
+            elif op[0] == 3:
+                ops += ["WRed", "WAdv %s" % cZ(op[1]), "WAdd %s" % cZ(op[2])]
             else:
                 ops.append("WAdv %s" % cZ(op[1]))
         reds = clist([clist([_bucket(b) for b in row]) for row in obs["reduces"]])
@@ -276,8 +320,8 @@ def encode(case, obs):
             fin = "(Some (%s, %s, %s))" % (cZ(obs["offset"]), cZ(obs["last"]), clist([_bucket(b) for b in obs["ring"]]))
         else:
             fin = "None"
-        return "WCase %s %s %s %s %s %s %s" % (cZ(case["size"]), cZ(case["interval"]), cbool(case["ignore"]),
-                                               clist(ops), cZ(obs["panic_at"]), reds, fin)
+        return "WCase %s %s %s %s %s %s %s %s" % (cZ(case["size"]), cZ(case["interval"]), cbool(case["ignore"]),
+                                                  clist(ops), cZ(obs["panic_at"]), reds, fin, cbool(all(v == 1 for v in obs.get("conc", []))))
     ops = []
     for op in obs.get("ops", []):
         if op[0] == 0:
